@@ -326,3 +326,7 @@ CHECKS = [
           thorough=30000,
           rule="Reverse / Chain / CountFrom against reversed / itertools.chain / itertools.count."),
 ]
+
+
+from .. import covfuzz  # noqa
+CHECKS.append(covfuzz.check(CHECKS, "harness.props.c17", "misc_iterators", quick=3000, thorough=100000))
